@@ -158,11 +158,11 @@ def compare_entry(se, pe, out, strict_comments=False):
             out.append(("comment.text", "comment %r, written %r" % (pe.get("text"), se["text"])))
 
 
-def compare_journal(case, res, only=None):
+def compare_journal(case, res, only=None, ignore_errs=False):
     """Compare the spec's abstract journal with the projection of the parser's result.
     Returns list of (sig, what).  `only`: optional set of entry indices to compare (C07)."""
     out = []
-    for e in res["errs"]:
+    for e in ([] if ignore_errs else res["errs"]):
         out.append(("syntax-error", "syntax error at %d:%d: %s" % (e["line"], e["col"], e["msg"])))
         break
     res = dict(res, entries=res.get("entries") or [], errs=res.get("errs") or [])
